@@ -106,6 +106,8 @@ func (c *Case) genWorld(t *rapid.T) {
 	if rapid.IntRange(0, 2).Draw(t, "res") == 0 {
 		c.Resolvers = append(c.Resolvers, g.GenResolver(t))
 	}
+	// evaluation has no memo: bound the work of a case (see vx.Lighten)
+	vx.Lighten(20000, append([]*vx.Node{c.Root}, c.Envs...)...)
 }
 
 // ordered materialisation: every map is filled in the order given by perm
